@@ -32,7 +32,8 @@ man={
           "enable":"harness/Cargo.toml depends on rooc by path with features=[\"verif-hooks\"]; ./check rebuilds against /repo's working tree",
           "baseline_off_cmd":"cd /repo/packages/rooc && (cargo nextest run --workspace --no-fail-fast --offline || cargo test --workspace --no-fail-fast --offline)",
           "source_commits":["21e085b","3ea6608","56548b6","8527055"],"add_only":True},
- "engines":[{"name":"rv","path":"harness","serves_properties":sorted(BUILT),"kind_free_text":"Rust runtime-monitoring harness: generators, reference models (exact rational LP/MILP with certificates, exact evaluator, LP-format reader), monitors over executions of the real code, sacrificial worker subprocesses with CPU/memory budgets"}],
+ "engines":[{"name":"rv","path":"harness","serves_properties":sorted(BUILT),"kind_free_text":"Rust runtime-monitoring harness: generators, reference models (exact rational LP/MILP with certificates, exact evaluator, LP-format reader), monitors over executions of the real code, sacrificial worker subprocesses with CPU/memory budgets"},
+            {"name":"rv-miri","path":"miri","serves_properties":["C18"],"kind_free_text":"sanitizer layer of the C18 thorough tier: a slice of the C18 corpus through the compiler stages under cargo +nightly miri, 16 sharded processes (miri/run.sh)"}],
  "checks":[],
  "notes":"Every check is `./check <id> <tier>`: rebuilds the harness (and rooc with hooks) from /repo's working tree, runs sharded workers, writes evidence/<id>.json, prints KNOWN-FINDING lines for entries of known_findings.json and VIOLATION lines (exit 1) for anything else; exit 2 + INCONCLUSIVE when a run did not reach its coverage thresholds.",
  "not_applicable":[]
